@@ -72,7 +72,7 @@ package mpt
 //@ func getFromStore
 //@ assumed
 //@ pure
-//@ ensures result1 == nil ==> len(result0) >= 5 && fresh(result0)
+//@ ensures result1 == nil ==> len(result0) >= 5   // NOT a fresh slice: an in-memory layer hands out the buffer it stores
 //@ ensures result1 != nil ==> result0 == nil && len(result0) == 0
 //@ ensures result1 == nil && mode & ModeGCFlag != 0 ==> result0[len(result0)-5] == 1
 
@@ -97,6 +97,11 @@ package mpt
 //@ call MemCachedStore).Delete requires cnt == 0 && t.mode & ModeGCFlag == 0
 //@ call MemCachedStore).Put requires len(arg2) >= 5 && cnt >= 0 && (cnt == 0 ==> t.mode & ModeGCFlag != 0 && arg2[len(arg2)-5] == 0 && le32s(arg2, len(arg2)-4) == index) && (cnt > 0 ==> le32s(arg2, len(arg2)-4) == cnt)
 //@ ensures[nonneg] result >= 0
+// the record written is a buffer of its own: neither the bytes the store handed out nor the node's
+// cached serialization (which may be a prefix of those bytes, with room behind it) is written in
+// place - a layer that is thrown away must leave the layers below as they were
+//@ call MemCachedStore).Put requires[own] fresh(arg2)
+//@ call PutUint32 requires[own] fresh(arg1)
 //@ opt frame off
 //@ opt callers trust
 
